@@ -29,8 +29,8 @@ PROPERTY = 'C12'
 
 META = {
     'bounds': {'quick': 'LHS: N<=3 samples x 2 parameters (unit level and symbolic box); van der Corput digit law bases 2,3,5,7 with 8/6/5/4 digits; '
-                        'Halton generator 12 points x 3 parameters; grid k in 2..3, n<=2; random generator 3 designs',
-               'thorough': 'LHS N=4 x 2, N=3 x 3; digit law bases 2..13 with 10/7/6/5/4/4 digits; Halton 50 x 4; grid k<=4, n<=3'},
+                        'Halton generator 12 points x 3 parameters, 3 points x 5 and 6 parameters, unit sequence for every dimension 1..40; grid k in 2..3, n<=2; random generator 3 designs',
+               'thorough': 'LHS N=4 x 2, N=3 x 3; digit law bases 2..13 with 10/7/6/5/4/4 digits; Halton 50 x 4, 3 x 5..8, unit sequence for every dimension 1..200; grid k<=4, n<=3'},
     'stubs': ['numpy RandomState.rand -> fresh reals in [0,1); RandomState.permutation -> symbolic permutation (forking)',
               'np.zeros_like on object arrays -> object arrays', 'random.random (artap.utils) -> fresh real in [0,1)'],
     'assumptions': ['floats as reals; strata borders are the doubles of np.linspace; Halton unit samples compared at 1e-12',
@@ -198,6 +198,27 @@ def halton_generator(args):
     return body
 
 
+def halton_dimensions(args):
+    """The dimension -> prime-base table of halton() is concrete code that branches on the number of parameters
+    (it first asks for the primes below 10 and falls back to larger sieves): every dimension in the range is run."""
+    dims, N = args['dims'], args['N']
+    doecommon.install()
+    import artap.doe as DOE
+
+    def body(ctx):
+        for n in range(dims[0], dims[1] + 1):
+            primes = _primes(n)
+            unit = DOE.halton(N, n)
+            ctx.check('halton-shape(dim=%d)' % n, len(unit) != N or any(len(r) != n for r in unit))
+            if len(unit) != N or any(len(r) != n for r in unit):
+                continue
+            bad = [(i, j) for i in range(N) for j in range(n)
+                   if abs(float(unit[i][j]) - float(_radical_inverse(i + 1, primes[j]))) > 1e-12]
+            ctx.check('halton-parameter-j-uses-the-j-th-prime(dim=%d)' % n, bool(bad))
+        ctx.output('dims', list(dims))
+    return body
+
+
 def grid(args):
     k, n = args['k'], args['n']
     doecommon.install()
@@ -275,6 +296,11 @@ def configs(tier):
                     'engine': {'validate': 10}})
     out.append({'name': 'halton-generator', 'task': 'halton_generator', 'args': {'N': 12 if Q else 50, 'n': 3 if Q else 4}, 'weight': 10,
                 'engine': {'validate': 3}})
+    for n in ((5, 6) if Q else (5, 6, 7, 8)):
+        out.append({'name': 'halton-generator-n%d' % n, 'task': 'halton_generator', 'args': {'N': 3, 'n': n}, 'weight': n,
+                    'engine': {'validate': 3}})
+    out.append({'name': 'halton-dimensions', 'task': 'halton_dimensions', 'args': {'dims': (1, 40) if Q else (1, 200), 'N': 3 if Q else 4},
+                'weight': 5, 'engine': {'validate': 1}})
     out.append({'name': 'halton-generator-1x1', 'task': 'halton_generator', 'args': {'N': 1, 'n': 1}, 'weight': 1, 'engine': {'validate': 3}})
     for k, n in ((2, 1), (2, 2), (3, 2)) if Q else ((2, 1), (2, 2), (3, 2), (4, 2), (3, 3), (2, 3)):
         out.append({'name': 'grid-k%d-n%d' % (k, n), 'task': 'grid', 'args': {'k': k, 'n': n}, 'weight': k ** n, 'engine': {'validate': 3}})
